@@ -673,7 +673,8 @@ def run_gcp_aspect(case):
         pix = [(float(x), float(y)) for y in np.linspace(0, H, lay[0]) for x in np.linspace(0, W, lay[1])]
     wld = [truth(x, y) for x, y in pix]
     pcls, wcls = _aspect_class(W, H), _aspect_class(ax, ay)
-    cls = f"{kind}:pix-{pcls}:wld-{wcls}"
+    fit = "fit3" if npts < 4 else "fit4" if npts < 9 else "fit9"  # the polynomial class odc-geo documents for this count
+    cls = f"{kind}:{fit}:{ori}:pix-{pcls}:wld-{wcls}"
     r = R(outcome=f"gcpx:{kind}:{npts}:pix-{pcls}:wld-{wcls}:{ori}")
     G = GCPGeoBox((H, W), GCPMapping(np.asarray(pix), np.asarray(wld), GCPX_CRS))
     what = f"GCPGeoBox({(H, W)}, {npts} control points {kind}, world cloud {EX:g} x {EY:g} m, {ori})"
@@ -753,6 +754,8 @@ def run_gcp_aspect(case):
 
     Id = Affine.identity()
     check(G, Id, "base", extra=pix + [(W / 3, H / 7), (0.5, 0.5)])
+    if r.fails:
+        return r  # every view shares the mapping: a wrong base says it all
     cy0, cx0 = H // 4, (1 if W >= 2 else 0)
     views = [
         ("crop", lambda g: g[cy0:max(cy0 + 1, H - 1), cx0:max(cx0 + 1, W // 2 + 1)], Affine.translation(cx0, cy0)),
